@@ -374,7 +374,7 @@ func goldapRefusal(addr string, q RouteReq, st *lab.Stats) *lab.Fail {
 	return lab.Failf("refusal-goldap:"+q.Op, "go-ldap %s against a mux without matching route: %v (want LDAP result 53 as the final answer)", q.Op, rerr)
 }
 
-const c03Rule = "route tables = sequences of routes over {Bind, Modify, Add, Delete, Extended x 3 names, Search x baseDN {none,dc=a,DC=A,dc=b} x filter {none,(x=1),(X=1),(y=2)} x scope {0,1,2}} with default route absent/present/registered twice, crossed with all 59 requests over the same alphabet (case variants, all scopes, an unregistered name); oracle = reference model of first-match routing written from the statement, exactly one handler entry and one response per request, built-in refusal = code 53 + request's message ID + response tag of the request's operation (and the go-ldap call returns 53); non-trivial = >= 2 routes match or none; distinct by hash of (table, request)"
+const c03Rule = "route tables = sequences of routes over {Bind, Modify, Add, Delete, Extended x 3 names, Search x baseDN {none,dc=a,DC=A,dc=b} x filter {none,(x=1),(X=1),(y=2)} x scope {0,1,2}} with default route absent/present/registered twice, crossed with all 59 requests over the same alphabet in a generated order (pipelined on one connection, so that routing is also exercised against its own history) (case variants, all scopes, an unregistered name); oracle = reference model of first-match routing written from the statement, exactly one handler entry and one response per request, built-in refusal = code 53 + request's message ID + response tag of the request's operation (and the go-ldap call returns 53); non-trivial = >= 2 routes match or none; distinct by hash of (table, request)"
 
 func TestC03Random(t *testing.T) {
 	kinds := allRouteKinds()
@@ -382,7 +382,8 @@ func TestC03Random(t *testing.T) {
 	lab.Prop[c03Case]{
 		ID: "C03", Part: "random", Rule: "rapid: tables of 0..8 routes; " + c03Rule,
 		Gen: func(t *rapid.T) c03Case {
-			c := c03Case{Defaults: rapid.IntRange(0, 2).Draw(t, "defaults"), Reqs: reqs}
+			// the order in which the requests hit the mux is generated too: routing must not depend on history
+			c := c03Case{Defaults: rapid.IntRange(0, 2).Draw(t, "defaults"), Reqs: rapid.Permutation(reqs).Draw(t, "reqorder")}
 			// bias towards search routes that overlap
 			c.Routes = rapid.SliceOfN(rapid.SampledFrom(kinds), 0, 8).Draw(t, "routes")
 			c.GoLDAP = rapid.IntRange(0, 3).Draw(t, "goldap") == 0
@@ -428,7 +429,17 @@ func TestC03Exhaustive(t *testing.T) {
 			if k%nsh != shard {
 				continue
 			}
-			c := c03Case{Routes: tb, Defaults: d, Reqs: reqs, GoLDAP: k%64 == 0 || len(tb) == 0}
+			// a different (deterministic) request order per table: routing must not depend on history
+			order := append([]RouteReq{}, reqs...)
+			x := uint64(k)*0x9E3779B97F4A7C15 + 1
+			for i := len(order) - 1; i > 0; i-- {
+				x ^= x << 13
+				x ^= x >> 7
+				x ^= x << 17
+				j := int(x % uint64(i+1))
+				order[i], order[j] = order[j], order[i]
+			}
+			c := c03Case{Routes: tb, Defaults: d, Reqs: order, GoLDAP: k%64 == 0 || len(tb) == 0}
 			if f := c03Exec(c, st); f != nil {
 				// shrink the request list to the first failing request
 				for _, q := range reqs {
